@@ -57,21 +57,28 @@ mod verif_slices {
         let v: DiplomatSlice<T> = DiplomatSlice { ptr: core::ptr::null(), len: 0, phantom: PhantomData };
         let d: &[T] = &*v;
         assert!(d.is_empty());
+        assert!(!d.as_ptr().is_null(), "a Rust slice made from a NULL view is a valid (non-null) empty slice");
         let s: &[T] = v.into();
         assert!(s.is_empty());
+        assert!(!s.as_ptr().is_null());
         let m: DiplomatSliceMut<T> = DiplomatSliceMut { ptr: core::ptr::null_mut(), len: 0, phantom: PhantomData };
         assert!((&*m).is_empty());
+        assert!(!(&*m).as_ptr().is_null());
         let mut m2: DiplomatSliceMut<T> = DiplomatSliceMut { ptr: core::ptr::null_mut(), len: 0, phantom: PhantomData };
         assert!((&mut *m2).is_empty());
+        assert!(!(&mut *m2).as_ptr().is_null());
         let ms: &mut [T] = m.into();
         assert!(ms.is_empty());
+        assert!(!ms.as_ptr().is_null());
         let mut o: DiplomatOwnedSlice<T> = DiplomatOwnedSlice { ptr: core::ptr::null_mut(), len: 0, phantom: PhantomData };
         assert!((&*o).is_empty());
         assert!((&mut *o).is_empty());
+        assert!(!(&*o).as_ptr().is_null() && !(&mut *o).as_ptr().is_null());
         drop(o); // Drop of the (NULL, 0) owned slice frees nothing
         let o2: DiplomatOwnedSlice<T> = DiplomatOwnedSlice { ptr: core::ptr::null_mut(), len: 0, phantom: PhantomData };
         let b: Box<[T]> = o2.into();
         assert!(b.is_empty());
+        assert!(!b.as_ptr().is_null(), "Box<[T]> made from the (NULL, 0) owned slice holds a non-null (dangling) pointer");
         drop(b);
     }
 
@@ -240,6 +247,7 @@ mod verif_slices {
         let nv = DiplomatUtf8StrSlice(DiplomatSlice { ptr: core::ptr::null(), len: 0, phantom: PhantomData });
         let e: &str = nv.into();
         assert!(e.is_empty());
+        assert!(!e.as_ptr().is_null());
     }
 
     #[kani::proof]
@@ -271,6 +279,7 @@ mod verif_slices {
         let n = DiplomatOwnedUTF8StrSlice(DiplomatOwnedSlice { ptr: core::ptr::null_mut(), len: 0, phantom: PhantomData });
         let nb: Box<str> = n.into();
         assert!(nb.is_empty());
+        assert!(!nb.as_ptr().is_null());
         drop(nb);
     }
 
